@@ -132,6 +132,7 @@ def run_case(res, base, case, idx, second_run):
     try:
         if run.timed_out:
             res.count('runs_watchdog')
+            res.add_set('watchdog_stacks', run.stderr[-1800:])
             return
         if run.rc != 0 or run.uncaught_traceback:
             res.count('runs_failed')
@@ -238,8 +239,7 @@ def run(ctx):
         ctx.inconclusive_because('too few sweeps')
     if ctx.counters.get('proposals_retested', 0) == 0:
         ctx.inconclusive_because('the sweep re-tested nothing')
-    if ctx.counters.get('runs_watchdog', 0):
-        ctx.inconclusive_because('a run hit the watchdog')
+    ctx.judge_watchdog('runs')
 
 
 def replay(data):
